@@ -1,130 +1,51 @@
 """C02 - panel constitutive stiffness = Hessian of the Donnell strain energy."""
-from . import pyxast, spec, panelk, pyrules
-from .kernel import MatrixKernel
+from . import spec, panelk, pyrules
 from .poly import P
-from .report import repo_path, REPO, AnalysisError
 from .spec import S, C
 
 LEVEL = 'proof'
+R = {'hess': 'R02.1', 'alias': 'R02.2', 'frame': 'R02.3', 'index': 'R02.5', 'swap': 'R02.6'}
 
 
-def k0_spec(model, frame):
-    g = frame.geo()
-    b = spec.Builder()
-    if model == 'plate_w':
-        rows = spec.only_fields(spec.strain_rows('plate', g), {'w'})
-        dof = spec.DOF1
-    else:
-        rows = spec.strain_rows(model, g)
-        dof = spec.DOF3
-    jac = g.a * g.b * C(1) / C(4)
-    return b.hessian(rows, spec.F_sym, jac, dof, xlim=frame.xlim, ylim=frame.ylim)
-
-
-def kernel_blocks(k):
-    return {pq: panelk.canon_F(k.block(pq)) for pq in k.blocks}
-
-
-def check_kernel(chk, model, rel, fname, sub, num):
-    u = pyxast.parse(repo_path(rel), REPO)
-    chk.need(u.func(fname) is not None, 'anchor vanished: %s in %s' % (fname, rel))
-    try:
-        k = MatrixKernel(u, fname)
-    except KeyError as e:
-        raise AnalysisError(str(e))
-    # R02.2 alias discipline
-    panelk.issue_obligations(chk, 'R02.2', k, rel)
-    # frame: limits / sections
-    fr = panelk.Frame(model, k, sub)
-    for construct, exp, got in fr.problems:
-        chk.ob('R02.3' if model == 'kpanel' and 'sub-interval' not in construct and 'y ' not in construct else 'R02.2',
-               False, rel, fname, construct, expected=exp, got=got, detail='integration frame')
-    for c in fr.checked:
-        chk.ob('R02.3' if 'section' in c or 'rbot' in c else 'R02.2', True, rel, fname, c, sample=c)
-    # R02.1 Hessian identity
-    got = kernel_blocks(k)
-    exp = k0_spec(model, fr)
-    n = panelk.compare_blocks(chk, 'R02.1', k, rel, got, exp, 'Hessian of the strain energy')
-    # every block emitted exactly once per innermost iteration, nothing else written
-    for pq, es in k.blocks.items():
-        chk.ob('R02.1', len(es) == 1, rel, fname, 'single emit (%d,%d)' % pq, line=es[0].line,
-               detail='block written %d times per iteration' % len(es))
-    chk.ob('R02.1', not k.other_arrays, rel, fname, 'no other array written', got=sorted(k.other_arrays))
-    # emitted values contain no series-size symbol (nested trial spaces)
-    bad = sorted({a for v in got.values() for a in v.atoms() if a in ('m', 'n') or a.startswith('L')})
-    chk.ob('R02.1', not bad, rel, fname, 'values independent of m, n and raw indices', got=bad)
-    # R02.5 index maps and guard
-    probs = panelk.index_map_problems(k, num)
-    for line, base, e, g_ in probs:
-        chk.ob('R02.5', False, rel, fname, 'index map ' + base, line=line, expected=e, got=g_)
-    if not probs:
-        chk.ob('R02.5', True, rel, fname, 'index maps', sample='row = row0 + %d*(j*m+i), col = col0 + %d*(l*m+k)' % (num, num))
-    guards = panelk.guards_of(k)
-    okg = all(any(g.replace(' ', '') in ('skip-if$row>$col', 'skip-ifrow>col') for g in gs) for gs in guards) and guards
-    gtxt = sorted({g for gs in guards for g in gs})
-    okg = bool(guards) and all(('skip-if row > col' in gs) and len(gs) == 1 for gs in guards)
-    chk.ob('R02.5', okg, rel, fname, 'upper-triangle guard', expected='every emit guarded by: if row > col: continue (and nothing else)', got=gtxt)
-    # R02.6 role-swap symmetry E_PQ(A,B) == E_QP(B,A)
-    for pq in sorted(got):
-        qp = (pq[1], pq[0])
-        sw = panelk.swap_roles(got.get(qp, P()), k.w.atoms)
-        chk.ob('R02.6', got[pq].close(sw), rel, fname, 'role-swap (%d,%d)' % pq,
-               expected='E_PQ(A,B) == E_QP(B,A)', detail='; '.join(got[pq].diffterms(sw, 3)))
-    # y-linearity: every monomial has exactly one y-integral atom (tiles add up)
-    for pq, v in sorted(got.items()):
-        degs = v.degree_in(lambda a: a.startswith('Iy['))
-        chk.ob('R02.2', degs <= {1}, rel, fname, 'y-degree (%d,%d)' % pq, expected='degree exactly 1 in y-integrals', got=sorted(degs))
-    return k, got
-
-
-KERNELS = [(m, panelk.MODELS[m], f, f.endswith('y1y2')) for m in ('plate', 'plate_w', 'cpanel', 'kpanel') for f in ('fk0', 'fk0y1y2')]
+def k0_spec(model):
+    def fn(frame, k):
+        g = frame.geo()
+        b = spec.Builder()
+        if model == 'plate_w':
+            rows = spec.only_fields(spec.strain_rows('plate', g), {'w'})
+            dof = spec.DOF1
+        else:
+            rows = spec.strain_rows(model, g)
+            dof = spec.DOF3
+        jac = g.a * g.b / C(4)
+        return b.hessian(rows, spec.F_sym, jac, dof, xlim=frame.xlim, ylim=frame.ylim)
+    return fn
 
 
 def run(chk):
     chk.level = LEVEL
     chk.trusted = ['python3 ast', 'E1 lowering (vcheck/pyxast.py)', 'Fraction polynomial arithmetic (vcheck/poly.py)',
                    'C10: integral_* functions return the exact integrals of the Bardell functions',
+                   'C01: the laminate matrix is [[A,B],[B,D]] with symmetric blocks',
                    'Cython/C translate +,-,*,/ faithfully', 'Donnell strain table in vcheck/spec.py']
     chk.assumptions = ['kpanel: the package-wide cone convention kxy = -2 w,xy + sin(alpha) w,y / r',
                        'floating point rounding is not modelled']
     nums = pyrules.modeldb_nums(chk)
     full = {}
     nemit = 0
-    for model, rel, fname, sub in KERNELS:
+    for model in ('plate', 'plate_w', 'cpanel', 'kpanel'):
+        rel = panelk.MODELS[model]
         num = nums.get(model)
         chk.need(num is not None, 'modelDB has no num for ' + model)
-        k, got = check_kernel(chk, model, rel, fname, sub, num)
-        unit_num = k.unit.module_consts().get('num')
-        chk.ob('R02.5', unit_num == num, rel, fname, 'num', expected='cdef int num == modelDB num == %s' % num, got=unit_num)
-        full[(model, fname)] = (k, got)
-        nemit += len(got)
+        for fname in ('fk0', 'fk0y1y2'):
+            k, got, fr, bad = panelk.check_matrix_kernel(chk, R, model, rel, fname, fname.endswith('y1y2'), num,
+                                                          k0_spec(model), 'Hessian of the strain energy')
+            full[(model, fname)] = (k, got)
+            nemit += len(got)
+        panelk.sibling_check(chk, 'R02.2', model, 'fk0', 'fk0y1y2', full[(model, 'fk0')][1],
+                             full[(model, 'fk0y1y2')][1], full[(model, 'fk0y1y2')][0])
     chk.floor('R02.1 emitted blocks', nemit, 56)
-    # sibling check: sub-interval kernel == full kernel under atom map (y limits dropped)
-    for model in ('plate', 'plate_w', 'cpanel', 'kpanel'):
-        kf, gf = full[(model, 'fk0')]
-        ks, gs = full[(model, 'fk0y1y2')]
-        for pq in sorted(set(gf) | set(gs)):
-            a = strip_ylimits(gs.get(pq, P()), ks.w.atoms)
-            b = gf.get(pq, P())
-            chk.ob('R02.2', a.close(b), panelk.MODELS[model], 'fk0y1y2', 'sibling fk0 (%d,%d)' % pq,
-                   expected='same polynomial as fk0 under full->sub atom map', detail='; '.join(a.diffterms(b, 3)))
-    # Python side: dispatch, symmetrisation
     pyrules.r02_python(chk)
     chk.explanation = ('each emitted block of fk0/fk0y1y2 is expanded to a polynomial normal form over '
                        'semantic integral atoms and compared with the bilinear expansion of the Donnell '
                        'strain table against the symbolic laminate matrix')
-
-
-def strip_ylimits(p, atoms):
-    cache = {}
-
-    def fn(a):
-        if a in cache:
-            return cache[a]
-        info = atoms.reg.get(a)
-        r = a
-        if info and info[0] == 'I' and info[1] == 'y' and info[4]:
-            r = atoms.integral('y', 'full', info[3][0], info[3][1], None)
-        cache[a] = r
-        return r
-    return p.rename(fn)
